@@ -318,7 +318,11 @@ type tcpMuxFront interface {
 func newTCPModel(raw json.RawMessage) *tcpModel {
 	tm := &tcpModel{conns: map[string]*tcpRefConn{}, readers: map[string][]*tcpReader{}, t0: time.Now(), gotClosed: map[int][]string{}, everShared: map[int]bool{}}
 	_ = json.Unmarshal(raw, &tm.cfg)
-	tm.lis = &fakeLis{ch: make(chan net.Conn), closed: make(chan struct{}), addr: &net.TCPAddr{IP: net.ParseIP("10.0.0.1").To4(), Port: 7001}}
+	lip := net.ParseIP("10.0.0.1").To4()
+	if tm.cfg.Kind == "mapped" { // a dual-stack listener reports IPv4 addresses in their 16-byte form
+		lip = net.ParseIP("10.0.0.1").To16()
+	}
+	tm.lis = &fakeLis{ch: make(chan net.Conn), closed: make(chan struct{}), addr: &net.TCPAddr{IP: lip, Port: 7001}}
 	tm.m = NewTCPMuxDefault(TCPMuxParams{Listener: tm.lis, Logger: nopLogger{}, ReadBufferSize: 16, WriteBufferSize: tm.cfg.WriteBuffer})
 	tm.front = tm.m
 	if tm.cfg.Kind == "multi" {
@@ -427,6 +431,9 @@ func (tm *tcpModel) Apply(ev string) {
 	case "accept":
 		port := 40001 + len(tm.clients)
 		caddr := &net.TCPAddr{IP: net.ParseIP("192.0.2.9").To4(), Port: port}
+		if tm.cfg.Kind == "mapped" {
+			caddr.IP = net.ParseIP("192.0.2.9").To16()
+		}
 		c, s := newPipe(caddr, tm.lis.addr)
 		cl := &tcpClient{kind: f[1], end: c, addr: caddr.String(), accepted: time.Now()}
 		tm.clients = append(tm.clients, cl)
@@ -786,6 +793,7 @@ func checkC15(c *runCtx) {
 	vtSearch(c, p, vtSpec{Name: fmt.Sprintf("TCPMuxDefault, all sequences of length <= %d, <= 3 clients of 10 kinds", depth), Model: "tcpmux", Cfg: muxCfg{Depth: depth}, Deadline: dl})
 	vtSearch(c, p, vtSpec{Name: fmt.Sprintf("TCPMuxDefault with a write buffer, all sequences of length <= %d", depth-1), Model: "tcpmux", Cfg: muxCfg{Depth: depth - 1, WriteBuffer: 4096}, Deadline: dl})
 	vtSearch(c, p, vtSpec{Name: fmt.Sprintf("MultiTCPMuxDefault in front of the mux, all sequences of length <= %d", depth-2), Model: "tcpmux", Cfg: muxCfg{Depth: depth - 2, Kind: "multi"}, Deadline: dl})
+	vtSearch(c, p, vtSpec{Name: fmt.Sprintf("listener and streams report IPv4 addresses in 16-byte form (dual-stack socket), all sequences of length <= %d", depth-2), Model: "tcpmux", Cfg: muxCfg{Depth: depth - 2, Kind: "mapped"}, Deadline: dl})
 	if os.Getenv("VERIF_VARIANT") == "instr" {
 		b := 4
 		if !c.quick() {
